@@ -3,7 +3,7 @@
    checks of yaep_read_grammar / check_grammar in the order of the C code;
    [defect_b c] decides the defect documented for code c independently of any
    order; [well_formed_b] is the absence of all of them. *)
-From YV Require Import Prelude Generated ReadGrammar ReadGrammarProofs ReadGrammarSem.
+From YV Require Import Prelude Generated ReadGrammar ReadGrammarProofs ReadGrammarSem LoopSem.
 Local Open Scope Z_scope.
 
 Theorem C10_ok_iff : forall strict terms rules,
@@ -44,3 +44,25 @@ Theorem C10_reachable_flag_meaning : forall rules x,
   memn x (ReadGrammar.reachable rules) = true <-> ReadGrammarSem.reachable (arules rules) n_axiom x.
 Proof. exact reachable_spec. Qed.
 Print Assumptions C10_reachable_flag_meaning.
+
+(* "a nonterminal that can derive itself" (code 16): the loop check finds something exactly when some nonterminal
+   reaches itself through one or more unit edges; a unit edge x -> y is a rule x : a y b in which y is a nonterminal
+   and every symbol of a and of b is marked nullable (whose meaning is C10_nullable_flag_meaning) *)
+Theorem C10_loop_check_meaning : forall terms rules,
+  loops terms rules <> [] <->
+  exists x, Relation_Operators.clos_trans nat (fun a b => In (a, b) (unit_edges terms rules)) x x.
+Proof. exact loops_spec. Qed.
+Print Assumptions C10_loop_check_meaning.
+
+Theorem C10_unit_edge_meaning : forall terms rules x y,
+  In (x, y) (unit_edges terms rules) <->
+  exists a b, In (x, a ++ y :: b) (arules rules) /\ is_term terms y = false /\
+              (forall s, In s a -> memn s (nullable rules) = true) /\ (forall s, In s b -> memn s (nullable rules) = true).
+Proof. exact unit_edge_spec. Qed.
+Print Assumptions C10_unit_edge_meaning.
+
+(* the fixed number of passes of the loop check always suffices: its result is a fixed point *)
+Theorem C10_loop_check_passes_suffice : forall terms rules,
+  lpass (unit_edges terms rules) (loops terms rules) = loops terms rules.
+Proof. intros terms rules. exact (lres_stable (unit_edges terms rules)). Qed.
+Print Assumptions C10_loop_check_passes_suffice.
